@@ -33,6 +33,10 @@ pub enum SK {
     Ready,
     /// QoS 1 with a payload larger than the peer's maximum packet size: must fail locally
     Q1Big,
+    /// QoS 1 publish through the non-blocking API (publish_ack_cb + send_at_least_once_no_block)
+    Q1NoBlock,
+    /// over-size QoS 1 publish with a caller-chosen packet id (fails locally; the id must stay usable)
+    Q1BigId(u16),
     /// subscribe with an over-long filter: must fail locally (encoder)
     SubBig,
     /// QoS 1 with a 65536-byte topic: must fail locally and leave no bytes
@@ -191,6 +195,25 @@ async fn run_sender_v5(sink: ntex_mqtt::v5::MqttSink, kind: SK, j: usize, app: A
                 Ok(a) => ackstr(a),
                 Err(e) => format!("err:{e:?}"),
             });
+        }
+        SK::Q1BigId(id) => {
+            let r = sink.publish(bs("t")).packet_id(id).send_at_least_once(by(&vec![tag(j); 300])).await;
+            push(match &r {
+                Ok(a) => ackstr(a),
+                Err(e) => format!("err:{e:?}"),
+            });
+        }
+        SK::Q1NoBlock => {
+            sink.publish_ack_cb(|_, _| {});
+            if sink.is_ready() {
+                let r = sink.publish(bs("t")).send_at_least_once_no_block(by(&[tag(j)]));
+                push(match &r {
+                    Ok(()) => "ok".into(),
+                    Err(e) => format!("err:{e:?}"),
+                });
+            } else {
+                push("not-ready".into());
+            }
         }
         SK::SubBig => {
             let r = sink.subscribe(None).topic_filter(bs(&"x".repeat(70_000)), c::SubscriptionOptions::default()).send().await;
@@ -358,6 +381,25 @@ async fn run_sender_v3(sink: ntex_mqtt::v3::MqttSink, kind: SK, j: usize, app: A
                 Err(e) => format!("err:{e:?}"),
             });
         }
+        SK::Q1BigId(id) => {
+            let r = sink.publish(bs("t")).packet_id(id).send_at_least_once(by(&vec![tag(j); 300])).await;
+            push(match &r {
+                Ok(()) => "ok".into(),
+                Err(e) => format!("err:{e:?}"),
+            });
+        }
+        SK::Q1NoBlock => {
+            sink.publish_ack_cb(|_, _| {});
+            if sink.is_ready() {
+                let r = sink.publish(bs("t")).send_at_least_once_no_block(by(&[tag(j)]));
+                push(match &r {
+                    Ok(()) => "ok".into(),
+                    Err(e) => format!("err:{e:?}"),
+                });
+            } else {
+                push("not-ready".into());
+            }
+        }
         SK::SubBig => {
             let r = sink.subscribe().topic_filter(bs(&"x".repeat(70_000)), ntex_mqtt::QoS::AtMostOnce).send().await;
             push(match r {
@@ -521,6 +563,8 @@ pub struct Pending {
 }
 
 pub struct Out {
+    /// sender j (Q1Id) shared its lifetime with another Q1Id sender using the same id
+    pub id_overlap: Vec<bool>,
     pub cfg: OutCfg,
     pub conn: Conn,
     pub app: App,
@@ -877,7 +921,7 @@ impl Out {
             let written = on_wire + usize::from(in_tail);
             match kind {
                 SK::Ready => {}
-                SK::Q0 | SK::Stream { qos: 0, .. } => {
+                SK::Q0 | SK::Q1NoBlock | SK::Stream { qos: 0, .. } => {
                     // synchronous sends: result known
                     if first_ok != written && !(first_ok > written && ended) {
                         return Err(Violation::new(
@@ -1071,6 +1115,7 @@ impl Scenario for Out {
             let n = cfg.senders.len();
             let app: App = Rc::new(RefCell::new((0..n).map(|_| SenderSt::default()).collect()));
             Out {
+                id_overlap: vec![false; n],
                 conn,
                 app,
                 seen: 0,
@@ -1203,6 +1248,14 @@ impl Scenario for Out {
                 let mut a = self.app.borrow_mut();
                 a[j].started = true;
                 a[j].handle = Some(h);
+                if let SK::Q1Id(id) = kind {
+                    for k in 0..a.len() {
+                        if k != j && self.cfg.senders[k] == SK::Q1Id(id) && a[k].started && !a[k].done {
+                            self.id_overlap[j] = true;
+                            self.id_overlap[k] = true;
+                        }
+                    }
+                }
             }
             Ev::Ack => self.correct_ack(1),
             Ev::AckBatch(n) => self.correct_ack(n as usize),
@@ -1348,8 +1401,10 @@ impl Scenario for Out {
                     ));
                 }
                 // sends that are meant to fail locally (C06 converse family)
-                let expected_local_failure = matches!(self.cfg.senders[j], SK::Q1Big | SK::SubBig)
-                    || (matches!(self.cfg.senders[j], SK::Q1Id(_)) && s.results.iter().all(|r| !r.starts_with("err") || r.contains("PacketIdInUse")));
+                // "packet id in use" is only a legitimate answer if another send with the same caller-chosen id
+                // (that really went out) was outstanding at some time during this sender's life
+                let expected_local_failure = matches!(self.cfg.senders[j], SK::Q1Big | SK::Q1BigId(_) | SK::SubBig)
+                    || (matches!(self.cfg.senders[j], SK::Q1Id(_)) && self.id_overlap[j] && s.results.iter().all(|r| !r.starts_with("err") || r.contains("PacketIdInUse")));
                 if s.started && !s.cancelled && !expected_local_failure && s.results.iter().any(|r| r.starts_with("err")) {
                     return Err(Violation::new(
                         "send-failed",
